@@ -312,9 +312,17 @@ func (e *evalCtx) see(id, a, b int) { e.log[[3]int{id, a, b}] = struct{}{} }
 
 // ---------------------------------------------------------------- oracle (strict lists)
 
+func isLeafOp(op string) bool {
+	switch op {
+	case "from", "slice", "pfrom", "fromshared", "pfromshared":
+		return true
+	}
+	return false
+}
+
 func isP(op string) bool {
 	switch op {
-	case "pfrom", "ptakewhile", "pdropwhile", "pfilter", "pmap", "pplus", "pjoin", "fromseq":
+	case "pfrom", "pfromshared", "ptakewhile", "pdropwhile", "pfilter", "pmap", "pplus", "pjoin", "fromseq":
 		return true
 	}
 	return false
@@ -322,7 +330,7 @@ func isP(op string) bool {
 
 func (e *evalCtx) listS(n *node) []int {
 	switch n.Op {
-	case "from":
+	case "from", "fromshared":
 		return []int{n.Xs[0]}
 	case "slice":
 		return slices.Clone(n.Xs)
@@ -397,7 +405,7 @@ func (e *evalCtx) listS(n *node) []int {
 
 func (e *evalCtx) listP(n *node) []kv {
 	switch n.Op {
-	case "pfrom":
+	case "pfrom", "pfromshared":
 		return []kv{{n.Xs[0], n.Xs[1]}}
 	case "ptakewhile":
 		in := e.listP(n.Kids[0])
@@ -527,8 +535,23 @@ func (b *buildCtx) see(id, x, y int) {
 	}
 }
 
+// A value returned by From is immutable (it denotes the one-element list wherever it stands), so a program may lift a
+// separator or a default once and use it in many places and many expressions. "fromshared" / "pfromshared" leaves take
+// their value from a process-wide table: one From call per distinct element for the whole run.
+var (
+	sharedFrom  = map[int]seq.Seq[int]{}
+	sharedPFrom = map[[2]int]pair.Seq[int, int]{}
+)
+
 func (b *buildCtx) buildS(n *node) seq.Seq[int] {
 	switch n.Op {
+	case "fromshared":
+		s, ok := sharedFrom[n.Xs[0]]
+		if !ok {
+			s = seq.From(n.Xs[0])
+			sharedFrom[n.Xs[0]] = s
+		}
+		return s
 	case "from":
 		return seq.From(n.Xs[0])
 	case "slice":
@@ -582,6 +605,14 @@ func (b *buildCtx) buildS(n *node) seq.Seq[int] {
 
 func (b *buildCtx) buildP(n *node) pair.Seq[int, int] {
 	switch n.Op {
+	case "pfromshared":
+		k := [2]int{n.Xs[0], n.Xs[1]}
+		s, ok := sharedPFrom[k]
+		if !ok {
+			s = pair.From(n.Xs[0], n.Xs[1])
+			sharedPFrom[k] = s
+		}
+		return s
 	case "pfrom":
 		return pair.From(n.Xs[0], n.Xs[1])
 	case "ptakewhile":
@@ -734,6 +765,38 @@ func runTree(t *node) {
 		checkArgs(b, "drain")
 	}
 	rec.Count("elements_drained", int64(len(gotS)+len(gotP)))
+
+	// 1b. a larger expression is built on top of this one and thrown away undrained: Plus (on either side) and Map
+	// need not look at their operand to be built, so the expression itself still drains to its own list
+	{
+		b := &buildCtx{log: argset{}, budget: budget}
+		var g2S []int
+		var g2P []kv
+		if pn := common.Catch(func() {
+			if p {
+				s := b.buildP(t)
+				_ = pair.Plus(s, pair.From(1777, 777))
+				_ = pair.Plus(pair.From(1778, 778), s)
+				_ = pair.Map(s, func(k, v int) int { return v })
+				for has := s != nil; has && len(g2P) <= n+8; has = s.Next() {
+					g2P = append(g2P, kv{s.Key(), s.Value()})
+				}
+			} else {
+				s := b.buildS(t)
+				_ = seq.Plus(s, seq.From(777))
+				_ = seq.Plus(seq.From(778), s)
+				_ = seq.Plus(s, seq.FromSlice([]int{779, 780}))
+				_ = seq.Map(s, func(x int) int { return x })
+				for has := s != nil; has && len(g2S) <= n+8; has = s.Next() {
+					g2S = append(g2S, s.Value())
+				}
+			}
+		}); pn != nil {
+			rec.Violate(site+"operand-of-discarded/panic", fmt.Sprintf("drain after the expression was used as an operand of discarded Plus/Map expressions panicked: %v", pn), c)
+		} else if !slices.Equal(g2S, wantS) || !slices.Equal(g2P, wantP) {
+			rec.Violate(site+"operand-of-discarded", fmt.Sprintf("after the expression was used as an operand of Plus/Map expressions that were never drained it drains to %v%v, list semantics gives %v%v", g2S, g2P, wantS, wantP), c)
+		}
+	}
 
 	// 2. ForEach with the visitor failing at position j (j = n: never fails)
 	js := []int{n}
@@ -943,6 +1006,8 @@ func randS(r rnd, d int, pairs bool, next *int) *node {
 		case k == 1:
 			*next++
 			return &node{Op: "from", Xs: []int{*next}}
+		case k == 2 && r.IntN(2) == 0:
+			return &node{Op: "fromshared", Xs: []int{900 + r.IntN(3)}} // one of three separators lifted once for the whole run
 		default:
 			n := r.IntN(9)
 			xs := make([]int, n)
@@ -977,6 +1042,9 @@ func randS(r rnd, d int, pairs bool, next *int) *node {
 
 func randP(r rnd, d int, next *int) *node {
 	if d <= 1 || r.IntN(8) == 0 {
+		if r.IntN(6) == 0 {
+			return &node{Op: "pfromshared", Xs: []int{1990 + r.IntN(2), 950 + r.IntN(2)}}
+		}
 		*next++
 		return &node{Op: "pfrom", Xs: []int{1000 + *next, *next % 997}}
 	}
